@@ -42,6 +42,17 @@ def run_shard(cid, tier, seed, shard, nshards, out):
                 for k, v in value.items():
                     sub[k] = sub.get(k, 0) + v
 
+    if os.environ.get('VERIF_OVERLAP', '1') != '0':
+        # once per shard (= per configuration): two simulations alive at once in two threads
+        from . import overlap
+        try:
+            found, overlap_stats = overlap.check()
+        except BaseException as err:  # noqa: B902
+            found, overlap_stats = [{'mechanism': 'harness-error', 'case': {'canary': 'overlap'},
+                                     'msg': 'overlap scenario crashed: %r' % (err,)}], {}
+        merge(stats, overlap_stats)
+        violations.extend(found)
+        evaluations += 3
     for index in range(shard, total, nshards):
         case = mod.make_case(seed, index, tier)
         try:
@@ -85,7 +96,12 @@ def replay(cid, path):
     with open(path) as stream:
         record = json.load(stream)
     case = record['violation']['case']
-    res = mod.run_case(case)
+    if case.get('canary') == 'overlap':
+        from . import overlap
+        found, overlap_stats = overlap.check()
+        res = {'violations': found, 'stats': overlap_stats}
+    else:
+        res = mod.run_case(case)
     print(json.dumps({'violations': res.get('violations'), 'stats': res.get('stats')},
                      indent=1, default=repr))
     if res.get('violations'):
